@@ -321,6 +321,23 @@ fn remove_source_map_comment(comments: &SwcComments) {
     }
 }
 
+// an inline source map may carry media type parameters before the encoding - babel and webpack write
+// `data:application/json;charset=utf-8;base64,` - while the decoder only knows the bare
+// `data:application/json;base64,` form
+fn decode_inline_source_map(url: &str) -> swc::sourcemap::Result<DecodedMap> {
+    const MEDIA_TYPE: &str = "data:application/json;";
+    const ENCODING: &str = ";base64";
+    if let Some((header, data)) = url.split_once(',') {
+        if header.starts_with(MEDIA_TYPE)
+            && header.ends_with(ENCODING)
+            && header.len() > MEDIA_TYPE.len() + ENCODING.len() - 1
+        {
+            return decode_data_url(&format!("{MEDIA_TYPE}base64,{data}"));
+        }
+    }
+    decode_data_url(url)
+}
+
 fn extract_source_map<R: Read>(
     file_path: &str,
     comments: &SwcComments,
@@ -335,7 +352,7 @@ fn extract_source_map<R: Read>(
         let trim_comment = comment.text.trim();
         source_map_comment = Some(String::from(comment.text.as_str()));
         let url = trim_comment.get(SOURCE_MAP_URL.len()..).unwrap();
-        source = decode_data_url(url)
+        source = decode_inline_source_map(url)
             .map_err(Error::new)
             .or_else(|_| {
                 let source_path = PathBuf::from(url);
